@@ -112,3 +112,34 @@ void h_irred_window(void)
 #endif
 	V_CANARY("irred_window");
 }
+
+/* priNextPrime (the multi-word entry) on one- and two-word values with every kind of factor base: all a < 2^13 x
+   base_count in {0, 1, 3, 10, 100, priBaseSize()}, n = 1 and n = 2 (zero high word), trials = SIZE_MAX, on a stack of
+   exactly priNextPrime_deep(n, base_count) octets */
+void h_nextprime_window(void)
+{
+#ifdef VERIF_NATIVE
+	static const size_t BC[6] = { 0, 1, 3, 10, 100, (size_t)-1 };
+	unsigned long bad = 0, total = 0; u64 a, qq, lim; size_t bi, n;
+	for (bi = 0; bi < 6; ++bi)
+		for (n = 1; n <= 2; ++n)
+		{
+			size_t bc = BC[bi] == (size_t)-1 ? priBaseSize() : BC[bi];
+			void* stack = v_alloc(priNextPrime_deep(n, bc));
+			for (a = 1; a < (1u << 13); ++a, ++total)
+			{
+				word aw[2], p[2]; unsigned l = bitlen64(a); int ok, got;
+				aw[0] = (word)a, aw[1] = 0; p[0] = p[1] = 0;
+				lim = (u64)1 << l;
+				for (qq = a | 1; qq < lim && !oracle_prime(qq); qq += 2);
+				ok = qq < lim;
+				got = priNextPrime(p, aw, n, SIZE_MAX, bc, 8, stack);
+				if (got != ok || (ok && (p[0] != (word)qq || (n == 2 && p[1] != 0))))
+				{ if (bad < 5) printf("priNextPrime(a=%llu, n=%u, base_count=%u): expected %s %llu, got %d %llu\n", (unsigned long long)a, (unsigned)n, (unsigned)bc, ok ? "TRUE" : "FALSE", (unsigned long long)qq, got, (unsigned long long)p[0]); ++bad; }
+			}
+		}
+	printf("next-prime window: %lu cases, %lu mismatches\n", total, bad);
+	V_ASSERT(bad == 0, "priNextPrime == least odd prime in [a, 2^l) or FALSE, for every factor-base size");
+#endif
+	V_CANARY("nextprime_window");
+}
